@@ -96,6 +96,9 @@ Judge(s, e) ==
        ELSE IF o.xmax6 >= 0 /\ o.liquid > 0 /\ o.x6 > o.xmax6 + 2 THEN "sle.exceeds_solubility"
        ELSE IF o.pure /\ o.xmax6 < 0 /\ o.above /\ o.solid > 0 THEN "sle.pure_solute_solid_above_Tm"
        ELSE IF o.pure /\ o.xmax6 < 0 /\ ~o.above /\ o.liquid > 0 THEN "sle.pure_solute_liquid_below_Tm"
+       \* o.fresh: difference (quanta of the solute's total) to a NEW stream holding the same material: whatever the solver object
+       \* remembers from earlier calls (other solvents, another solute, a given solubility), the call answers for THIS material
+       ELSE IF o.fresh > 10000 THEN "sle.differs_from_new_stream"
        ELSE "ok"
 Legal(s) == TRUE
 ObsLegal(e) == TRUE
